@@ -17,6 +17,8 @@ Case format (JSON):
       | ['N']  radio.send_packet returns None (usb.USBError swallowed by Crazyradio)   | ['E']  it raises
       | ['ST', hdr, [data]]  send_packet that runs into its 2 s timeout if the queue is full (virtual clock)
       | ['RW', wait]         receive_packet(wait)
+  'more': [{'how': 'restart'|'reconnect', 'negs': [...], 'evs': [...]}, ...]  further sessions on the SAME RadioDriver
+           object: pause()+restart() or close()+connect(), then that start-up script and those events
   'close': 1  RadioDriver.close() after the last event;  'stats': 1  with a link-statistics callback and a
   statistics clock that jumps 0.25 s per reading (every rate/congestion branch runs)
       | ['D']   (last event) drain: acknowledged transmissions until nothing is pending, then receive all;
@@ -105,6 +107,18 @@ class RadioTap:
     def close(self):
         self.closed += 1
 
+    def set_channel(self, c):
+        self.cr.set_channel(c)
+
+    def set_data_rate(self, d):
+        self.cr.set_data_rate(d)
+
+    def set_address(self, a):
+        self.cr.set_address(a)
+
+    def set_arc(self, a):
+        self.cr.set_arc(a)
+
     def send_packet(self, data):
         is_neg = isinstance(data, tuple)     # the negotiation sends a tuple, the main loop an array
         r = self.cr.send_packet(data)
@@ -156,18 +170,59 @@ class Sim:
         rd._nr_of_retries = case['N']
         try:
             self.cr = crz.Crazyradio(device=FakeDev(self))
+            self.tap = RadioTap(self.cr, self)
             self.drv = rd.RadioDriver()
-            self.drv.in_queue = queue.Queue()
-            self.drv.out_queue = queue.Queue(1)
-            self.drv.link_error_callback = self._err
             self.stats = []
-            stats_cb = (lambda d: self.stats.append(dict(d))) if case.get('stats') else None
-            self.thread = rd._RadioDriverThread(RadioTap(self.cr, self), self.drv.in_queue, self.drv.out_queue,
-                                                stats_cb, self._err, self.drv, None)
-            self.drv._thread = self.thread
+            self.stats_cb = (lambda d: self.stats.append(dict(d))) if case.get('stats') else None
+            self.sessions = []            # per finished session: start-up answers, mode, observations
+            self.tx_from = 0
+            # the real RadioDriver.connect(): queues, thread, callbacks (dongle look-up and Thread.start patched)
+            self._patched(lambda: self.drv.connect(self.URI, self.stats_cb, self._err))
+            self.thread = self.drv._thread
         except Exception:
             rd._nr_of_retries = self._saved_N
             raise
+
+    URI = 'radio://0/80/2M'
+
+    def _patched(self, fn):
+        """run fn with RadioManager.open giving the tap (no USB look-up) and _RadioDriverThread.start doing nothing
+        (the harness calls run() itself, or starts the thread explicitly in the real-thread sessions)"""
+        rd = self.rd
+        saved_open, saved_start = rd.RadioManager.open, rd._RadioDriverThread.start
+        rd.RadioManager.open = staticmethod(lambda devid: self.tap)
+        rd._RadioDriverThread.start = lambda t: None
+        try:
+            return fn()
+        finally:
+            rd.RadioManager.open = saved_open
+            rd._RadioDriverThread.start = saved_start
+
+    def _end_session(self):
+        t = self.thread
+        head = [len(self.neg_resps)]
+        for o in self.neg_resps:
+            head += o
+        self.sessions.append({'neg_resps': self.neg_resps, 'neg_usb': self.neg_usb, 'neg_frames': self.neg_frames,
+                              'n_neg': self.n_neg, 'safe': bool(t._has_safelink),
+                              'needs': bool(self.drv.needs_resending), 'head': head, 'obs': self.obs,
+                              'executed': self.executed, 'tx_from': self.tx_from, 'tx_to': len(self.tx)})
+
+    def _reopen(self, seg):
+        """pause()+restart() or close()+connect() on the SAME RadioDriver object, then the next script"""
+        if seg['how'] == 'restart':
+            self.drv.pause()
+            self._patched(self.drv.restart)
+        else:
+            self.drv.close()
+            self._patched(lambda: self.drv.connect(self.URI, self.stats_cb, self._err))
+        self.thread = self.drv._thread
+        self.negs, self.evs = list(seg.get('negs', [])), list(seg.get('evs', []))
+        self.neg_resps, self.neg_usb, self.neg_frames, self.obs, self.executed = [], [], [], [], []
+        self.n_neg = 0
+        self.tx_from = len(self.tx)
+        self.drain_tail, self.drain_budget = 3, None
+        self.pending_reply = None
 
     # ---- callbacks from the code under test
     def _err(self, msg):
@@ -386,16 +441,20 @@ class Sim:
     def _run(self):
         rd = self.rd
         try:
-            self.thread.run()
-            if self.open_tx:
-                self._close_event()
-                self.open_tx = False
+            segs = [None] + list(self.case.get('more', []))
+            for k, seg in enumerate(segs):
+                if seg is not None:
+                    self._reopen(seg)
+                self.thread.run()
+                if self.open_tx:
+                    self._close_event()
+                    self.open_tx = False
+                self._end_session()
             self.closed = None
             if self.case.get('close'):       # RadioDriver.close() after the last event
-                tap = self.thread._radio
-                self.drv._radio = tap
+                n0 = self.tap.closed
                 self.drv.close()
-                self.closed = {'radio_closed': tap.closed, 'radio_ref': self.drv._radio is None,
+                self.closed = {'radio_closed': self.tap.closed - n0, 'radio_ref': self.drv._radio is None,
                                'callbacks_cleared': self.drv.link_error_callback is None
                                and self.drv.radio_link_statistics_callback is None,
                                'out_queue_empty': self.drv.out_queue.empty()}
@@ -404,9 +463,15 @@ class Sim:
 
     def _finish(self):
         t = self.thread
-        head = [len(self.neg_resps)]
-        for o in self.neg_resps:
-            head += o
+        if not self.sessions:             # real-thread sessions end here without _run
+            self._end_session()
+        if self.case.get('more'):
+            prefix = []
+            for ss in self.sessions:
+                prefix += [int(ss['safe']), int(ss['needs'])] + ss['head'] + ss['obs']
+        else:
+            prefix = self.sessions[0]['head'] + self.sessions[0]['obs']
+        self.executed = self.sessions[0]['executed']
         inq = []
         while True:
             try:
@@ -435,8 +500,8 @@ class Sim:
                       'exc_errors': self._n_exc_errors(), 'send_errors': self._n_send_errors(),
                       'lq': (int(t._radio_link_statistics._retry_sum), len(t._radio_link_statistics._retries)),
                       'closed': getattr(self, 'closed', None)}
-        self.flat = head + self.obs + hostw + world
-        self.flat_host = head + self.obs + hostw + _flatf(self.got)
+        self.flat = prefix + hostw + world
+        self.flat_host = prefix + hostw + _flatf(self.got)
         return self
 
 
